@@ -11,7 +11,7 @@ The theorems are about the pool machine for an arbitrary fee-rate comparison `lt
 irreflexive and transitive (`RateOrder`) — true of `<` on `float64`, NaN included — and for the
 conflict-slot table and key functions of the model, which `C34_gen_slot_table` ties to the source.
 The chain's verdicts (sanity / context check at submission, context check at the post-block
-re-check) are inputs; the post-block theorem needs the explicit *cleanup oracle* hypothesis.
+re-check) are inputs, universally quantified.
 -/
 namespace ElaVerif.C34
 open ElaVerif.Pool
@@ -180,27 +180,18 @@ theorem C34_append_passes_budget (p : Pool) (t : Tx) (sanityOK ctxOK : Bool) (h 
 theorem C34_remove_preserves (p : Pool) (t : Tx) (h : Inv lt p) : Inv lt (removeSpenders lt p t) :=
   removeSpenders_inv lt h t
 
-/-- the cleanup-oracle assumption: after the block, the chain's context check rejects every
-    still-held transaction that shares a slot key with a transaction of the block -/
-def CleanupOracle (p : Pool) (block : List Tx) (rej : List Nat) : Prop :=
-  ∀ x ∈ (cleanSubmitted lt p block).txs, (∃ k ∈ keysOf x, ∃ b ∈ block, k ∈ keysOf b) → x.id ∈ rej
-
-/-- **Post-block cleanup** (`CleanSubmittedTransactions` then `CheckAndCleanAllTransactions`)
-    restores the invariant, *given* the cleanup oracle (and that a held transaction with the hash
-    of a block transaction is that transaction). -/
+/-- **Post-block cleanup** (`CleanSubmittedTransactions` then `CheckAndCleanAllTransactions`) keeps the
+    invariant, whatever the chain's re-check rejects (`rej` arbitrary) — no assumption on the chain's
+    verdicts is needed since the `fix:` bf24ffb2 (only the index entries held by a block transaction itself
+    are cleared).  `IdsAgree`: a held transaction with the hash of a block transaction is that transaction. -/
 theorem C34_post_block_preserves (p : Pool) (block : List Tx) (rej : List Nat) (h : Inv lt p)
-    (hids : IdsAgree p block) (horacle : CleanupOracle lt p block rej) :
-    Inv lt (postBlock lt p block rej) :=
-  postBlock_inv lt h block rej hids horacle
+    (hids : IdsAgree p block) : Inv lt (postBlock lt p block rej) :=
+  postBlock_inv lt h block rej hids
 
-/-- Between the two halves of the cleanup the pool is still well formed (`Base`), and every key a
-    held transaction misses in the index is a key of a block transaction. -/
+/-- already `CleanSubmittedTransactions` alone keeps the whole invariant -/
 theorem C34_after_clean_submitted (p : Pool) (block : List Tx) (h : Inv lt p) (hids : IdsAgree p block) :
-    Base lt (cleanSubmitted lt p block) ∧
-    Missing (cleanSubmitted lt p block).txs (cleanSubmitted lt p block).slots
-      (fun k => ∃ b ∈ block, k ∈ keysOf b) :=
-  let g := Good.cleanSubmitted lt h block hids
-  ⟨g.base, g.miss⟩
+    Inv lt (cleanSubmitted lt p block) :=
+  (Good.cleanSubmitted lt h block hids).inv
 
 /-! ## All histories -/
 
@@ -215,40 +206,29 @@ def stepOp (U : Nat → Tx) (p : Pool) : Op → Pool
   | .block ids rej => postBlock lt p (ids.map U) rej
   | .remove i => removeSpenders lt p (U i)
 
-/-- the cleanup oracle holds at every block of the history -/
-def OracleAlong (U : Nat → Tx) : Pool → List Op → Prop
-  | _, [] => True
-  | p, op :: ops =>
-    (match op with
-      | .block ids rej => CleanupOracle lt p (ids.map U) rej
-      | _ => True) ∧ OracleAlong U (stepOp lt U p op) ops
-
 /-- **After any sequence of submissions, removals and block connections (each followed by the
     post-block cleanup), starting from the empty pool, the invariant holds** — for every
-    universe of transactions identified by their hash, all verdict sequences, provided the
-    cleanup oracle holds at every block. -/
+    universe of transactions identified by their hash and all verdict sequences of the chain. -/
 theorem C34_history (ho : RateOrder lt) (U : Nat → Tx) (hU : ∀ i, (U i).id = i)
-    (hsize : ∀ i, (U i).size < 2 ^ 63) (max : Nat) (hmax : max < 2 ^ 63) (ops : List Op)
-    (horacle : OracleAlong lt U (Pool.empty max) ops) :
+    (hsize : ∀ i, (U i).size < 2 ^ 63) (max : Nat) (hmax : max < 2 ^ 63) (ops : List Op) :
     Inv lt (ops.foldl (stepOp lt U) (Pool.empty max)) := by
-  have key : ∀ (ops : List Op) (p : Pool), Inv lt p → (∀ t ∈ p.txs, t = U t.id) → OracleAlong lt U p ops →
+  have key : ∀ (ops : List Op) (p : Pool), Inv lt p → (∀ t ∈ p.txs, t = U t.id) →
       Inv lt (ops.foldl (stepOp lt U) p) := by
     intro ops
     induction ops with
-    | nil => intro p h _ _; exact h
+    | nil => intro p h _; exact h
     | cons op ops ih =>
-      intro p h hu hor
+      intro p h hu
       simp only [List.foldl_cons]
-      obtain ⟨hor1, hor2⟩ := hor
       have hagree : ∀ ids : List Nat, IdsAgree p (ids.map U) := by
         intro ids b hb t ht hid
         obtain ⟨i, _, rfl⟩ := List.mem_map.1 hb
         rw [hu t ht, hid]
         rw [hU i]
-      apply ih _ _ _ hor2
+      apply ih
       · cases op with
         | append i sa cx => exact C34_append_preserves lt ho p (U i) sa cx (hsize i) h
-        | block ids rej => exact C34_post_block_preserves lt p _ rej h (hagree ids) hor1
+        | block ids rej => exact C34_post_block_preserves lt p _ rej h (hagree ids)
         | remove i => exact C34_remove_preserves lt p (U i) h
       · cases op with
         | append i sa cx =>
@@ -262,11 +242,11 @@ theorem C34_history (ho : RateOrder lt) (U : Nat → Tx) (hU : ∀ i, (U i).id =
         | remove i =>
           intro t ht
           exact hu t (removeSpenders_sub lt p (U i) t ht)
-  exact key ops _ (C34_empty_inv lt max hmax) (by intro t ht; cases ht) horacle
+  exact key ops _ (C34_empty_inv lt max hmax) (by intro t ht; cases ht)
 
 end
 
-/-! ## Non-vacuity and the role of the oracle -/
+/-! ## Non-vacuity -/
 
 /-- a comparison satisfying `RateOrder` (compare the fees) for the examples below -/
 def ltFee (a b : Rate) : Bool := decide (a.1 < b.1)
@@ -287,44 +267,28 @@ def exPool1 : Pool := (append ltFee (Pool.empty 20000000) (exU 1) true true).2.1
 example : exPool1.txs.map (·.id) = [1] ∧ (append ltFee exPool1 (exU 2) true true).1 = .conflict (.dup slotOwner) := by
   decide
 
-/-- **The cleanup oracle cannot be dropped.**  Pool = one UpdateProducer for owner `k1`; a block
-    connects *another* UpdateProducer for `k1` (different inputs).  `CleanSubmittedTransactions`
-    erases the block transaction's keys from the index; if the re-check keeps the held
-    transaction (`rej = []`, the oracle assumption fails), its keys are missing from the index … -/
-theorem C34_post_block_needs_oracle_witness :
-    Inv ltFee exPool1 ∧ IdsAgree exPool1 [exU 2] ∧ ¬ Inv ltFee (postBlock ltFee exPool1 [exU 2] []) := by
-  refine ⟨C34_append_preserves ltFee ltFee_order _ _ true true (by decide) (C34_empty_inv ltFee _ (by decide)), ?_, ?_⟩
-  · intro b hb t ht hid
-    simp only [List.mem_singleton] at hb
-    subst hb
-    have : t = exU 1 := by
-      have : exPool1.txs = [exU 1] := by decide
-      rw [this] at ht; simpa using ht
-    subst this
-    revert hid; decide
-  · intro h
-    have hm := h.2 (exU 1) (by decide) (slotOwner, "k1") (by decide)
-    exact hm (by decide)
-
-/-- … and a third UpdateProducer for the same owner is then accepted: two held transactions claim
-    the same unique resource. -/
-theorem C34_conflict_without_oracle_witness :
+/-- The scenario replayed on a real regnet node before the `fix:` (finding C34-block-erases-held-keys):
+    an UpdateProducer for owner `k1` is held, a block connects *another* UpdateProducer for `k1` (other
+    inputs), the re-check keeps the held one (it is still valid).  Now its index entries stay, and a third
+    UpdateProducer for `k1` is refused with a conflict on the owner-key slot. -/
+theorem C34_block_sharing_key_keeps_index :
     let p := postBlock ltFee exPool1 [exU 2] []
-    (append ltFee p (exU 3) true true).1 = .ok ∧
-    (append ltFee p (exU 3) true true).2.1.txs.map (·.id) = [1, 3] ∧
-    (slotOwner, "k1") ∈ keysOf (exU 1) ∧ (slotOwner, "k1") ∈ keysOf (exU 3) := by
+    p.txs.map (·.id) = [1] ∧ (slotOwner, "k1") ∈ p.slots.map (·.1) ∧
+    (append ltFee p (exU 3) true true).1 = .conflict (.dup slotOwner) := by
   decide
 
-/-- non-vacuity of `C34_post_block_preserves`: with the oracle (`rej = [1]`) the same block leaves a
-    consistent (here empty) pool. -/
-example : CleanupOracle ltFee exPool1 [exU 2] [1] ∧ (postBlock ltFee exPool1 [exU 2] [1]).txs = [] := by
-  refine ⟨?_, by decide⟩
-  intro x hx _
-  have : (cleanSubmitted ltFee exPool1 [exU 2]).txs = [exU 1] := by decide
-  rw [this] at hx
-  simp only [List.mem_singleton] at hx
-  subst hx
-  decide
+example : Inv ltFee (postBlock ltFee exPool1 [exU 2] []) :=
+  C34_post_block_preserves ltFee exPool1 [exU 2] []
+    (C34_append_preserves ltFee ltFee_order _ _ true true (by decide) (C34_empty_inv ltFee _ (by decide)))
+    (by
+      intro b hb t ht hid
+      simp only [List.mem_singleton] at hb
+      subst hb
+      have : exPool1.txs = [exU 1] := by decide
+      rw [this] at ht
+      simp only [List.mem_singleton] at ht
+      subst ht
+      revert hid; decide)
 
 /-- the fee list alone (AddTx with eviction, the branch `appendToTxPool`'s capacity pre-check
     makes unreachable): evicting keeps order and accounting — a concrete run: capacity 10, three
